@@ -405,34 +405,46 @@ Fixpoint node_diff (tol : Q) (tbl : list mv) (n : node) (o : onode) {struct n} :
     | Node p m v0 value sims _ probs kids =>
       if negb (opt_eqb mv_eqb m om) then Some ([], 2%Z)
       else if negb (list_eqb Z.eqb (pos_code p) code) then Some ([], 1%Z)
-      else if negb (Z.of_nat sims =? osims)%Z then Some ([], 5%Z)
-      else if negb (qeqb v0 ov0) then Some ([], 3%Z)
-      else if negb (qeqb value ovalue) then Some ([], 4%Z)
       else
+        let own :=
+            if negb (Z.of_nat sims =? osims)%Z then Some ([], 5%Z)
+            else if negb (qeqb v0 ov0) then Some ([], 3%Z)
+            else if negb (qeqb value ovalue) then Some ([], 4%Z)
+            else if negb (all2 (fun a b => qclose tol b a) probs oprobs) then Some ([], 6%Z)
+            else None in
         match kids, okids with
-        | None, None => None
+        | None, None => own
         | Some ks, Some oks =>
           if negb (Nat.eqb (length ks) (length oks)) then Some ([], 7%Z)
           else if negb (all2 (fun a b => opt_eqb mv_eqb (n_move a) (omove tbl b)) ks oks) then Some ([], 9%Z)
-          else if negb (all2 (fun a b => qclose tol b a) probs oprobs) then Some ([], 6%Z)
           else
-            (fix go (l : list node) (ol : list onode) (i : Z) : option (list Z * Z) :=
-               match l, ol with
-               | a :: t, b :: ot =>
-                 match node_diff tol tbl a b with
-                 | Some (pth, f) => Some (i :: pth, f)
-                 | None => go t ot (i + 1)%Z
-                 end
-               | _, _ => None
-               end) ks oks 0%Z
+            (* the deepest difference first: a child's wrong statistics explain the parent's *)
+            match (fix go (l : list node) (ol : list onode) (i : Z) : option (list Z * Z) :=
+                     match l, ol with
+                     | a :: t, b :: ot =>
+                       match node_diff tol tbl a b with
+                       | Some (pth, f) => Some (i :: pth, f)
+                       | None => go t ot (i + 1)%Z
+                       end
+                     | _, _ => None
+                     end) ks oks 0%Z with
+            | Some d => Some d
+            | None => own
+            end
         | _, _ => Some ([], 7%Z)
         end
     end
   end.
 
-(* the model's view for a replay: first difference, the model's node there
-   (visits, value, v_zero, outcome by the rules, children's moves), the model's
-   root, the evaluator answers left over *)
+Definition mv_id (n : Z) (m : option mv) : Z :=
+  match m with
+  | Some m => match encode_move n m with Some i => i | None => (-1)%Z end
+  | None => (-2)%Z
+  end.
+
+(* the model's view for a replay: first difference (path, field), then the
+   model's node there: visits, value, v_zero, outcome by the rules, children's
+   moves as move ids; last the evaluator answers left over *)
 Definition show_search (cutoff mix : Q) (p0 : position) (phs : list phase) (evs : list eval) (obs : onode) :=
   match run_phases cutoff mix phs (root p0) evs with
   | Some (n, rest) =>
@@ -443,12 +455,12 @@ Definition show_search (cutoff mix : Q) (p0 : position) (phs : list phase) (evs 
             match subtree n pth with
             | Some t => Some (n_sims t, Qred (n_value t), Qred (n_v0 t),
                               match terminal (n_pos t) with Some o => Some (Qred o) | None => None end,
-                              match n_kids t with Some ks => Some (map n_move ks) | None => None end)
+                              match n_kids t with Some ks => Some (map (fun k => mv_id (size p0) (n_move k)) ks) | None => None end)
             | None => None
             end
           | None => None
           end,
-          length rest, node_view n)
+          length rest)
   | None => None
   end.
 
